@@ -283,6 +283,7 @@ func (f *Frame) callByContract(st *State, fi *FuncInfo, args []Term, tsub map[*t
 	// havoc what the callee may modify
 	if sp.ModAll {
 		vc.havocAll(st)
+		defer f.assumeTypeInvs(st, pos) // after the postconditions: encapsulated invariants survive arbitrary callees
 	} else {
 		for _, m := range sp.Modifies {
 			f.havocModifies(st, pre, sf, m)
@@ -316,6 +317,37 @@ func (f *Frame) callByContract(st *State, fi *FuncInfo, args []Term, tsub map[*t
 		f.checkMonitors(st, site, pos)
 	}
 	return results
+}
+
+// assumeTypeInvs assumes every declared type invariant in state st. The syntactic encapsulation argument that
+// justifies this is re-checked on every load; a breach becomes a failed obligation of the function that relies on it.
+func (f *Frame) assumeTypeInvs(st *State, pos token.Pos) {
+	vc := f.vc
+	if f.spec || vc.fi == nil || vc.fi.Spec == nil || !vc.fi.Spec.UsesTypeInv {
+		return
+	}
+	for _, ti := range vc.prog.TypeInvs {
+		if vc.fi == nil || ti.Pkg.PkgPath != vc.fi.Pkg.PkgPath {
+			continue // the type is encapsulated in its own package
+		}
+		af := &Frame{vc: vc, pk: ti.Pkg, spec: true, bound: map[types.Object]Term{}, closures: map[types.Object]*ast.FuncLit{}}
+		rs := af.inline(st, ti.Pkg, ti.Decl, nil, nil, nil, true, ti.Decl.Pos())
+		if len(rs) == 1 {
+			vc.assume(st, rs[0])
+		}
+		name := "typeinv." + ti.Type.Obj().Name() + "/state_changed_only_by_its_methods"
+		if !vc.typeInvChecked[name] {
+			if vc.typeInvChecked == nil {
+				vc.typeInvChecked = map[string]bool{}
+			}
+			vc.typeInvChecked[name] = true
+			goal, text := True, "encapsulation of "+ti.Type.Obj().Name()+": fields written only by its methods and constructors (syntactic scan)"
+			if len(ti.Breaches) > 0 {
+				goal, text = False, strings.Join(ti.Breaches, "; ")
+			}
+			vc.obls = append(vc.obls, &Obligation{Name: vc.fi.Key + "/" + name, Kind: "assert", Func: vc.fi.Key, Pos: vc.posStr(pos), ScriptLen: 0, Goal: goal, Text: text})
+		}
+	}
 }
 
 // havocModifies havocs one modifies entry m (evaluated in the pre-state).
@@ -834,6 +866,13 @@ func (f *Frame) vsCall(st *State, name string, call *ast.CallExpr) []Term {
 		e := vc.fresh("err", SIface)
 		vc.assume(st, Not(Eq(e, NilIface())))
 		return []Term{e}
+	case "YieldSeq":
+		// YieldSeq(it): the sequence the iterator function `it` yields
+		sig, ok := f.typeOf(call.Args[0]).Underlying().(*types.Signature)
+		if !ok || f.iterElemType(sig) == nil {
+			vc.fail(call.Pos(), "YieldSeq wants a func(yield func(T) bool)")
+		}
+		return []Term{f.yieldSeq(f.expr(st, call.Args[0]), f.iterElemType(sig))}
 	case "IsAllocated":
 		// IsAllocated(p): p is a live object of its static (pointer / map) type
 		v := f.expr(st, call.Args[0])
@@ -868,7 +907,7 @@ func (f *Frame) vsCall(st *State, name string, call *ast.CallExpr) []Term {
 	case "CrashPoint":
 		f.checkMonitors(st, "crash."+stringConst(f.pk, call.Args[0]), call.Pos())
 		return nil
-	case "Requires", "Ensures", "Modifies", "ModifiesAll", "Allocates", "Invariant", "Effect", "Monitor", "Decreases", "Witness":
+	case "Requires", "Ensures", "Modifies", "ModifiesAll", "Allocates", "Invariant", "Effect", "Monitor", "Decreases", "Witness", "TypeInvariants":
 		return nil
 	}
 	vc.fail(call.Pos(), "unknown verifspec function %s", name)
